@@ -199,7 +199,11 @@ func NewProxy(s *server) elton.Handler {
 		}
 
 		// 对于fetching的请求，从响应头中判断该请求缓存的有效期
-		if status == cache.StatusFetching {
+		// 206与304只是针对该客户端请求头(Range、If-None-Match等)的响应，
+		// 并非完整的资源，不可缓存后响应给其它客户端
+		if status == cache.StatusFetching &&
+			c.StatusCode != http.StatusPartialContent &&
+			c.StatusCode != http.StatusNotModified {
 			maxAge := getCacheMaxAge(header)
 			if maxAge > 0 {
 				setHTTPCacheMaxAge(c, maxAge)
